@@ -50,6 +50,21 @@ fn main() {
             let lines = t.finish();
             println!("{}", serde_json::json!({"runs": runs, "events": lines}));
         }
+        "serial" => {
+            // the serial reference for C18: same jobs, no rayon
+            let mut t = Trace::create(job["out"].as_str().unwrap());
+            let mut runs = 0;
+            for j in job["jobs"].as_array().unwrap() {
+                runs += 1;
+                let mut ev = vec![];
+                let mut scratch = Trace::create("/dev/null");
+                let res = vharness::par::encode_with_tasks(j, &mut scratch, runs, &mut ev);
+                t.emit(serde_json::json!({"ev": "serial", "job": j["job_id"], "ok": res.is_some(), "len": res.as_ref().map(|b| b.len() as i64).unwrap_or(-1),
+                    "md5": res.as_ref().map(|b| vharness::writers::md5_hex(b)).unwrap_or_default(), "tasks": ev.len() as i64}));
+            }
+            let lines = t.finish();
+            println!("{}", serde_json::json!({"runs": runs, "events": lines}));
+        }
         "crash" => {
             let mut t = Trace::create(job["out"].as_str().unwrap());
             let runs = vharness::crash::run(&job, &mut t);
